@@ -113,7 +113,7 @@ fn main() {
         eprintln!("unknown property {id}");
         exit(2)
     });
-    let ctx = Ctx::new(prop.id, tier, seed, prop.level);
+    let ctx = std::sync::Arc::new(Ctx::new(prop.id, tier, seed, prop.level));
     // run-level watchdog: a stuck run is inconclusive (exit 2), never a violation
     let limit = std::env::var("VERIF_WATCHDOG_S")
         .ok()
@@ -122,8 +122,18 @@ fn main() {
             Tier::Quick => 1500,
             Tier::Thorough => 6 * 3600,
         });
+    let wctx = ctx.clone();
     std::thread::spawn(move || {
         std::thread::sleep(std::time::Duration::from_secs(limit));
+        // violations that were already confirmed (shrunk, re-run and saved) stand on their own: the
+        // unfinished rest of the run does not take them back
+        let confirmed = !wctx.violations.lock().unwrap().is_empty();
+        if confirmed {
+            println!("run-level watchdog ({limit}s) expired with confirmed violations; reporting what was found");
+            let code = wctx.finish();
+            vh::util::cleanup_scratch();
+            exit(code);
+        }
         println!("INCONCLUSIVE: run-level watchdog ({limit}s) expired");
         vh::util::cleanup_scratch();
         exit(2);
